@@ -1,9 +1,16 @@
 package refanvil
 
-import "testing"
+import (
+	"os"
+	"testing"
+)
 
 func TestSelf(t *testing.T) {
-	n, err := SelfTest("/repo")
+	repo := os.Getenv("VERIF_REPO")
+	if repo == "" {
+		repo = "/repo"
+	}
+	n, err := SelfTest(repo)
 	if err != nil {
 		t.Fatal(err)
 	}
